@@ -272,6 +272,34 @@ def _perm(case, bad):
             if [p for p, c in zip(cl_pred, clear) if c] != [p for p, c in zip(pred.tolist(), clear) if c]:
                 bad("classes_[j] is not the label of probability column j", "%s,%s" % (cond, "identity permutation" if ident else "non-identity permutation"),
                     "classes_=%r classes_[argmax proba]=%r predict=%r %s" % (classes, cl_pred[:6], pred.tolist()[:6], desc))
+    # two wrappers given the transformer by NAME ('permute'), fitted one after the other on different label sets, also nested:
+    # each keeps predicting its own labels, with the probabilities of the plain classifier
+    others = {"int": [5, 6, 7, 8], "negint": [0, 1, 2, 3], "float": [10.5, 11.5, 12.5, 14.0], "bool": [0, 1],
+              "str": ["p", "q", "r", "s"], "objstr": ["p", "q", "r", "s"], "strlen": ["a", "bb", "ccc", "dddd"]}[ls][:k]
+    for a in assigns[:3]:
+        y = numpy.array([labels[c] for c in a], dtype=dtype)
+        y2 = numpy.array([others[(c + 1) % k] for c in a], dtype=dtype)
+        desc = "labels=%r y=%r then another wrapper on y=%r clf=%s" % (labels, y.tolist(), y2.tolist(), case["clf"])
+        cnt += 1
+        try:
+            numpy.random.seed(3)
+            A = TransformedTargetClassifier2(classifier=mk(), transformer="permute").fit(X, y)
+            pa, qa = numpy.asarray(A.predict(P)), numpy.asarray(A.predict_proba(P))
+            numpy.random.seed(4)
+            B = TransformedTargetClassifier2(classifier=mk(), transformer="permute").fit(X, y2)
+            pb = numpy.asarray(B.predict(P))
+            pa2, qa2 = numpy.asarray(A.predict(P)), numpy.asarray(A.predict_proba(P))
+        except Exception as e:
+            bad("two wrappers raise %s" % type(e).__name__, cond, "%s %s" % (str(e)[:160], desc))
+            continue
+        if pa.tolist() != pa2.tolist() or not numpy.array_equal(qa, qa2):
+            bad("a fitted wrapper changes when another wrapper is fitted", cond, "%r -> %r %s" % (pa.tolist()[:6], pa2.tolist()[:6], desc))
+        if any(p not in labels for p in pa2.tolist()) or any(p not in others for p in pb.tolist()):
+            bad("predicted value is not an original label", cond + ",two wrappers", "%r / %r %s" % (pa2.tolist()[:6], pb.tolist()[:6], desc))
+        rank = {lab: i for i, lab in enumerate(sorted(labels))}
+        ref = mk().fit(X, numpy.array([rank[labels[c]] for c in a]))
+        if numpy.abs(qa2 - ref.predict_proba(P)).max() > max(ptol, 1e-12):
+            bad("probabilities differ from the plain classifier", cond + ",two wrappers", desc)
     return cnt, nontriv > 0
 
 
@@ -348,6 +376,23 @@ def _reg(case, bad):
                 if any(abs(a[0] - a[1]) > 1e-9 and p != e for a, p, e in zip(amb, pred.tolist(), exp)):
                     bad("predict != inverse permutation of the closest code", cond, "inner=%r predict=%r expected=%r %s" % (
                         inner.tolist(), pred.tolist(), exp, desc))
+    if name == "permute":
+        # two regressors given the transformer by name, fitted one after the other on different targets
+        Xr = numpy.arange(4, dtype=numpy.float64).reshape(-1, 1) + 1.0
+        ya, yb = numpy.array([0.0, 1.0, 2.0, 1.0]), numpy.array([100.0, 200.0, 100.0, 300.0])
+        try:
+            cnt += 1
+            A = TransformedTargetRegressor2(regressor=Rec(), transformer="permute").fit(Xr, ya)
+            pa = numpy.asarray(A.predict(Xr)).tolist()
+            B = TransformedTargetRegressor2(regressor=Rec(), transformer="permute").fit(Xr, yb)
+            pb = numpy.asarray(B.predict(Xr)).tolist()
+            pa2 = numpy.asarray(A.predict(Xr)).tolist()
+            if pa != pa2:
+                bad("a fitted wrapper changes when another wrapper is fitted", cond, "%r -> %r" % (pa, pa2))
+            if any(v not in ya.tolist() for v in pa2) or any(v not in yb.tolist() for v in pb):
+                bad("predict != inverse permutation of the closest code", cond + ",two wrappers", "%r / %r" % (pa2, pb))
+        except Exception as e:
+            bad("two wrappers raise %s" % type(e).__name__, cond, str(e)[:160])
     return cnt, True
 
 
